@@ -50,6 +50,7 @@ type Verifier struct {
 	globalInit map[*types.Var]ast.Expr
 	globalPkg  map[*types.Var]*Pkg
 	traceMemo  map[string]int
+	closedFields map[string]bool
 }
 
 func loadRepo(dir string) (*Verifier, error) {
@@ -212,6 +213,31 @@ func (v *Verifier) funcKey(fn *types.Func) string {
 		}
 	}
 	return pkg + fn.Name()
+}
+
+// fieldNeverClosed: no close(<expr>.<field>) occurs anywhere in the loaded packages.
+func (v *Verifier) fieldNeverClosed(field string) bool {
+	if v.closedFields == nil {
+		v.closedFields = map[string]bool{}
+		for _, pk := range v.pkgs {
+			for _, f := range pk.files {
+				ast.Inspect(f, func(n ast.Node) bool {
+					if c, ok := n.(*ast.CallExpr); ok && len(c.Args) == 1 {
+						if id, ok := c.Fun.(*ast.Ident); ok && id.Name == "close" {
+							switch a := ast.Unparen(c.Args[0]).(type) {
+							case *ast.SelectorExpr:
+								v.closedFields[a.Sel.Name] = true
+							case *ast.Ident:
+								v.closedFields["@ident"] = true
+							}
+						}
+					}
+					return true
+				})
+			}
+		}
+	}
+	return !v.closedFields[field]
 }
 
 // lookupType finds a named type of an imported package.
@@ -488,6 +514,7 @@ type FuncReport struct {
 	Unsupported string
 	Public      bool
 	PublicPre   []string
+	Inputs      []InputDesc
 }
 
 // verifyFunc generates the obligations of one function (or function literal "Key$N").
@@ -535,12 +562,16 @@ func (v *Verifier) verifyFunc(key string) (rep *FuncReport) {
 	st := &State{env: map[types.Object]Val{}, names: map[string]types.Object{}, bound: map[string]Val{}, heap: map[string]string{},
 		trCols: map[string]string{}, ghost: map[string]Val{}}
 	info := fd.pkg.info
+	isRecv := false
 	declareParam := func(n *ast.Ident) {
 		o := info.Defs[n]
 		if o == nil || n.Name == "_" {
 			return
 		}
 		val := fx.freshVal(st, "p_"+n.Name, o.Type())
+		if litN == 0 {
+			rep.Inputs = append(rep.Inputs, InputDesc{Name: n.Name, T: o.Type(), Term: val.X, Recv: isRecv})
+		}
 		if val.S == SRef {
 			fx.older(st, val.X)
 		}
@@ -548,11 +579,13 @@ func (v *Verifier) verifyFunc(key string) (rep *FuncReport) {
 	}
 	d := fd.decl
 	if d.Recv != nil {
+		isRecv = true
 		for _, f := range d.Recv.List {
 			for _, n := range f.Names {
 				declareParam(n)
 			}
 		}
+		isRecv = false
 	}
 	for _, f := range d.Type.Params.List {
 		for _, n := range f.Names {
